@@ -20,6 +20,17 @@ var Corpus = [][]string{
 		"adv 100000000", "in 1", "adv 1", "adv 100000000", "in 1", "adv 6000000000"},
 }
 
+
+// WildCorpus (C07, fixed): the attribute values that crashed the original code; run first in
+// wild mode.
+var WildCorpus = [][]string{
+	{"cfg slicer 3 7 92233720368547758 tox 1 incap 1", "sink 1", "start 0.25", "adv 1000000", "draws 1 5 0 5 0 1 1000 1000 0 0 0 5 0 0 0 1 0 1 5 1000 1 1000 0 5 1000 1000 0 1 1000 0 1 1000 5 0 0 0 1000 0 1000 5", "in 3", "draws 5 5 0 5 1 1000 5 1 1000 0 0 1 1 1 5 1000 5 1000 1 5 1000 5 1 1 0 1 1000 1 0 1000 0 5 0 1000 0 5 1 1000 1 1", "in 1000", "draws 5 0 5 1000 1000 5 5 1 0 0 0 1000 1000 1000 1 1 1 5 5 0 0 5 0 1 5 0 1 0 5 0 5 1 0 1000 1000 5 0 1 5 1000", "in 1000", "draws 1000 1 1 1000 5 5 1000 1000 0 1 0 1000 1000 5 1000 1 5 1000 1000 0 5 1000 1 0 5 1000 5 0 1000 1000 1000 1 0 1000 1000 1 1000 1 5 5", "in 101", "draws 1 5 1 0 1000 1000 1 1000 0 1 1 1000 1 1 1 0 0 1000 1 5 1 1000 5 0 1000 1 1000 0 1 5 5 1 1 1000 1000 0 1 1000 1000 0", "in 1", "take", "take", "intr", "adv 0", "start 0.5", "adv 1000000000", "take"},
+	{"cfg latency 250 4611686018427387904 9223372036854775807 tox 1 incap 0", "sink 1", "start 0.99999994", "adv 0", "draws 0 5 1 0 0 1000 0 1 5 0 5 1 1 5 1 1 1000 0 5 0 1 5 5 5 1000 5 5 0 0 1 1 1000 0 0 0 5 5 0 5 0", "in 2", "take", "draws 5 1 5 0 1 1 0 1 1000 5 5 1 0 5 0 5 1000 1000 1 0 1 5 0 1000 1000 5 5 0 5 0 1000 1 0 1000 1000 5 1 0 1000 1000", "in 1", "take", "adv 0", "adv 1000000000", "take"},
+	{"cfg bandwidth 9223372036854775807 7 -9223372036854775808 tox 1 incap 0", "sink 1", "start 0.4", "take", "adv 100000001", "sink 0", "in 2", "adv 1000000000", "take"},
+	{"cfg slicer 0 0 0 tox 1 incap 0", "sink 1", "start 0", "in 1", "take", "adv 1000000"},
+	{"cfg bandwidth -1 0 0 tox 1 incap 0", "sink 1", "start 0", "in 3", "adv 100000000", "take"},
+}
+
 type cfgGen struct {
 	ty  string
 	gen func(r *rng.R) (a1, a2, a3 int64)
@@ -259,6 +270,14 @@ func Sweep(e *Engine, tier string, seed uint64, only string, res *report.Result)
 			}
 			res.Notes = append(res.Notes, fmt.Sprintf("search after disagreement: %d oracle-only episodes", sub.Episodes))
 			e.OracleOnly = false
+		}
+	}
+	if e.Wild {
+		for _, c := range WildCorpus {
+			if f := e.Run(c, res); f != nil {
+				report1(c, f)
+				return
+			}
 		}
 	}
 	for _, c := range Corpus {
